@@ -48,3 +48,25 @@ Example C07_ex :
   /\ checker [] 0 0 0 [] = true.
 Proof. vm_compute. repeat split. Qed.
 Print Assumptions C07_ex.
+
+(* ---- the loop of match_geometries that reports the selected pairs, as READ FROM THE SOURCE (Gen/Source.v is
+   regenerated from soundevent/evaluation/match.py on every run; the affinity matrix and the pairs chosen by
+   _select_matches — scipy's solver and the leftover rows / columns — are its parameters): a selected pair with
+   affinity <= 0 is reported as two one-sided entries with affinity 0, every other pair as it is with M[i][j],
+   one-sided pairs with 0; with the model's selection it is the model's select_matches. ---- *)
+From SE Require Gen.Source Gen.SrcMatch.
+From SE Require Import Gen.Prelude.
+
+Theorem C07_src_match_tail : forall M ms,
+  Source.match_geometries_tail M ms = Ok (flat_map (SrcMatch.emit_pair M) ms).
+Proof. exact SrcMatch.src_match_tail. Qed.
+Print Assumptions C07_src_match_tail.
+
+Theorem C07_src_match_select : forall M n m lsa,
+  Source.match_geometries_tail M
+    (map (fun p => (Some (fst p), Some (snd p))) lsa
+     ++ map (fun r => (Some r, None)) (filter (fun r => negb (mem r (map fst lsa))) (seq 0 n))
+     ++ map (fun c => (None, Some c)) (filter (fun c => negb (mem c (map snd lsa))) (seq 0 m)))
+  = Ok (select_matches M n m lsa).
+Proof. exact SrcMatch.src_match_select. Qed.
+Print Assumptions C07_src_match_select.
